@@ -8,6 +8,7 @@ import (
 	"log"
 	"log/slog"
 	"os"
+	"runtime"
 	"sort"
 	"strconv"
 	"strings"
@@ -193,6 +194,32 @@ func hasClass(vs []Violation, class string) *Violation {
 	return nil
 }
 
+// runWatchdog: real-time limit for one simulated run. A run cannot take long in wall time unless the
+// bubble is wedged: a goroutine waits on a sync.Mutex (never a durable block for synctest) whose
+// holder is parked in simulated I/O, so simulated time can never advance. That is a state this
+// simulator cannot execute; the worker says so (stacks on stderr) and exits 3 — harness trouble, not a verdict.
+func runWatchdog(what string) (stop func()) {
+	limit := 120 * time.Second
+	if v := os.Getenv("VERIF_RUN_WALL_S"); v != "" {
+		if n, err := strconv.Atoi(v); err == nil && n > 0 {
+			limit = time.Duration(n) * time.Second
+		}
+	}
+	t := time.AfterFunc(limit, func() {
+		buf := make([]byte, 4<<20)
+		n := runtime.Stack(buf, true)
+		fmt.Fprintf(os.Stderr, "\nWEDGED: run %s made no end in %s of wall time; goroutines blocked on a mutex inside the bubble:\n", what, limit)
+		for _, g := range strings.Split(string(buf[:n]), "\n\n") {
+			if strings.Contains(g, "sync.Mutex.Lock, synctest bubble") || strings.Contains(g, "sync.RWMutex") && strings.Contains(g, "synctest bubble") {
+				fmt.Fprintln(os.Stderr, g)
+				fmt.Fprintln(os.Stderr)
+			}
+		}
+		os.Exit(3)
+	})
+	return func() { t.Stop() }
+}
+
 func TestSim(t *testing.T) {
 	propID := os.Getenv("VERIF_PROP")
 	if propID == "" {
@@ -291,7 +318,9 @@ func TestSim(t *testing.T) {
 		if progress != "" {
 			_ = os.WriteFile(progress, []byte(fmt.Sprintf("%d %d %s\n", seed, i, p.Sub)), 0o644)
 		}
+		stopWD := runWatchdog(fmt.Sprintf("%d/%d %s", seed, i, p.Sub))
 		r, vs := runOne(t, prop, p, keep)
+		stopWD()
 		line := RunLine{Idx: i, Seed: p.Seed, Sub: p.Sub, End: r.EndReason, Err: r.Err, Violations: vs, Ops: len(p.Ops), Endpoints: len(p.Endpoints),
 			WallMs: r.Wall.Milliseconds(), SimMs: r.SimTime.Milliseconds()}
 		if r.Sim != nil {
